@@ -4,7 +4,6 @@ import (
 	"bufio"
 	"encoding/json"
 	"fmt"
-	"io"
 	"math/rand"
 	"os"
 	"os/exec"
@@ -14,7 +13,6 @@ import (
 	"time"
 
 	"github.com/coredhcp/coredhcp/handler"
-	"github.com/coredhcp/coredhcp/logger"
 	rangeplugin "github.com/coredhcp/coredhcp/plugins/range"
 
 	"verif/internal/fw"
@@ -87,9 +85,8 @@ func killSchedule(seed int64, reqs int) []int {
 	return out
 }
 
-// ChildMain is the entry point of the child process (env VERIF_CHILD=rangekill).
-func ChildMain() {
-	logger.GetLogger("verif").Logger.SetOutput(io.Discard)
+// rangeKillChild is the entry point of the child process (env VERIF_CHILD=rangekill).
+func rangeKillChild() {
 	var c rangeKillCase
 	if err := json.Unmarshal([]byte(os.Getenv("VERIF_CHILD_ARG")), &c); err != nil {
 		fmt.Fprintln(os.Stderr, "child: bad arg", err)
